@@ -63,6 +63,7 @@ type variant struct {
 	name  string
 	route string // METHOD endpoint
 	flags router.VerifC20Flags
+	lean  bool // costly handler: core values only, no pairs
 	mk    func(id identity) *build
 }
 
@@ -156,12 +157,30 @@ func (p *plan) generate(yield func(kase)) {
 			p.counts["well-formed"] += 2
 
 			// one deviation
+			deep := map[string]bool{"pathvar": true, "path": true, "param": true, "query": true, "body": true, "field": true}
+
 			for si := range slots {
 				s := &slots[si]
+				firstCore := true
 
 				for oi := range s.opts {
 					o := &s.opts[oi]
+					rep := o.core && firstCore
+
+					if o.core {
+						firstCore = false
+					}
+
 					if o.onlyFirstIdent && ii > 0 {
+						continue
+					}
+
+					// quick tier and costly variants: the core values of each slot; the plain user: one value per slot
+					if !o.core && (!p.thorough || v.lean) {
+						continue
+					}
+
+					if !p.thorough && ii == len(p.idents)-1 && !rep {
 						continue
 					}
 
@@ -171,18 +190,28 @@ func (p *plan) generate(yield func(kase)) {
 					emit(v, id, "server", b, d)
 					p.counts["one-deviation"]++
 
-					if o.core || p.thorough {
+					if o.core && (p.thorough || (deep[s.class] && ii < len(p.idents)-1)) {
 						emit(v, id, "all", b, d)
 						p.counts["one-deviation-all-loggers"]++
 					}
 				}
 			}
 
-			if p.maxDevs < 2 {
+			if p.maxDevs < 2 || v.lean {
 				continue
 			}
 
-			// two deviations in different, compatible slots (core values)
+			// two deviations in different, compatible slots (the first core value of each slot)
+			first := func(s *slot) *option {
+				for oi := range s.opts {
+					if s.opts[oi].core {
+						return &s.opts[oi]
+					}
+				}
+
+				return nil
+			}
+
 			for si := range slots {
 				for sj := si + 1; sj < len(slots); sj++ {
 					a, c := &slots[si], &slots[sj]
@@ -190,29 +219,20 @@ func (p *plan) generate(yield func(kase)) {
 						continue
 					}
 
-					for oi := range a.opts {
-						oa := &a.opts[oi]
-						if !oa.core {
-							continue
-						}
-
-						for oj := range c.opts {
-							oc := &c.opts[oj]
-							if !oc.core {
-								continue
-							}
-
-							if oa.onlyFirstIdent && oc.onlyFirstIdent && ii > 0 {
-								continue
-							}
-
-							b := base.clone()
-							oa.apply(b)
-							oc.apply(b)
-							emit(v, id, "server", b, []dev{{Slot: a.name, Kind: oa.kind, Label: oa.label}, {Slot: c.name, Kind: oc.kind, Label: oc.label}})
-							p.counts["two-deviations"]++
-						}
+					oa, oc := first(a), first(c)
+					if oa == nil || oc == nil {
+						continue
 					}
+
+					if oa.onlyFirstIdent && oc.onlyFirstIdent && ii > 0 {
+						continue
+					}
+
+					b := base.clone()
+					oa.apply(b)
+					oc.apply(b)
+					emit(v, id, "server", b, []dev{{Slot: a.name, Kind: oa.kind, Label: oa.label}, {Slot: c.name, Kind: oc.kind, Label: oc.label}})
+					p.counts["two-deviations"]++
 				}
 			}
 		}
